@@ -355,3 +355,42 @@ where
         self.inner.read_chunks(chunks)
     }
 }
+
+
+// ---------------------------------------------------------------------------------------
+// an archive sink that, like a file or a socket, may accept only part of a buffer per write call
+
+pub struct ShortWriter {
+    pub data: Vec<u8>,
+    /// at most this many bytes are accepted per poll_write (0 = everything)
+    pub max_write: usize,
+    /// return Pending (and wake) before every k-th write; 0 = never
+    pub pending_every: usize,
+    writes: usize,
+    pending_next: bool,
+}
+impl ShortWriter {
+    pub fn new(max_write: usize, pending_every: usize) -> Self {
+        ShortWriter { data: Vec::new(), max_write, pending_every, writes: 0, pending_next: false }
+    }
+}
+impl AsyncWrite for ShortWriter {
+    fn poll_write(mut self: Pin<&mut Self>, cx: &mut Context<'_>, buf: &[u8]) -> Poll<io::Result<usize>> {
+        if self.pending_every > 0 && self.writes % self.pending_every == 0 && !self.pending_next {
+            self.pending_next = true;
+            cx.waker().wake_by_ref();
+            return Poll::Pending;
+        }
+        self.pending_next = false;
+        self.writes += 1;
+        let n = if self.max_write == 0 { buf.len() } else { buf.len().min(self.max_write) };
+        self.data.extend_from_slice(&buf[..n]);
+        Poll::Ready(Ok(n))
+    }
+    fn poll_flush(self: Pin<&mut Self>, _cx: &mut Context<'_>) -> Poll<io::Result<()>> {
+        Poll::Ready(Ok(()))
+    }
+    fn poll_shutdown(self: Pin<&mut Self>, _cx: &mut Context<'_>) -> Poll<io::Result<()>> {
+        Poll::Ready(Ok(()))
+    }
+}
